@@ -48,6 +48,8 @@ def state_labels(scheme, n):
         return [(i // 2, i % 2) for i in range(n)]
     if scheme == "fd":
         return [frozendict({"x": i // 2, "y": i % 2}) for i in range(n)]
+    if scheme == "collide":     # states named like the actions, and states that are (state, action) pairs of those names
+        return (["A", "B", ("A", "B"), ("B", "A"), "C", ("A", "A"), ("C", "B"), "D"] + [f"s{i}" for i in range(8, n)])[:n]
     if scheme == "mixed":  # unsortable mix
         out = []
         for i in range(n):
@@ -67,6 +69,8 @@ def action_labels(scheme, m):
         return [(i, -i) for i in range(m)]
     if scheme == "fd":
         return [frozendict({"dx": i, "dy": 0}) for i in range(m)]
+    if scheme == "collide":
+        return (["A", "B", "C", "D", "E"] + [f"a{i}" for i in range(5, m)])[:m]
     if scheme == "mixed":
         return [[i, f"a{i}", (i,)][i % 3] for i in range(m)]
     raise ValueError(scheme)
